@@ -1,4 +1,5 @@
 import QuinnModel.Conn.Sizing
+import QuinnModel.Conn.SendGate
 /-
 C13 — datagram sizing in `Connection::poll_transmit` / `PacketBuilder` (property theorems only; shape-anchored skeleton,
 see `Conn/Sizing.lean`).  Hypotheses name what the code relies on: `WritersRespect` = every frame writer stops at
@@ -58,5 +59,137 @@ theorem path_frames_padded (d : Dgram) (hasInitial isClient ackEl : Bool) (ht : 
 
 /-- non-vacuity: a client Initial ACK of 60 bytes is padded to exactly 1200 -/
 example : finishedLen ⟨0, 1200, 16, 60, 40, padDatagram true true false false⟩ = 1200 := by decide
+
+/-! ### "loss probes never exceed 1200 bytes" over ALL runs of the send loop, coalesced probes included
+
+`Conn/SendGate.lean`: a datagram is charged to a loss probe (`isProbe`) when it is started by a space that holds a credit,
+or when a packet holding a credit is coalesced into a datagram another space started.  `limit` is the
+`next_datagram_size_limit` the datagram was given (`Sizing.nextDatagramLimitAhead`). -/
+section LossProbes
+open QM.SendGate
+
+/-- no space from `k` on holds a loss-probe credit -/
+def NoCreditFrom (s : St) (k : Nat) : Prop := (k ≤ 0 → s.lp0 = 0) ∧ (k ≤ 1 → s.lp1 = 0) ∧ s.lp2 = 0
+
+theorem noCredit_lp (s : St) (k j : Nat) (h : NoCreditFrom s k) (hkj : k ≤ j) : lp s j = 0 := by
+  obtain ⟨h0, h1, h2⟩ := h
+  unfold lp
+  split
+  · exact h0 (by omega)
+  · exact h1 (by omega)
+  · exact h2
+
+/-- invariant of the loop: a probe datagram is clamped; an unclamped datagram that is not a probe was started when no
+    space from its opener on held a credit (so no credit can be coalesced into it); the opener is behind the cursor -/
+def K (s : St) : Prop :=
+  (s.isProbe = true → s.limit ≤ Gen.initialMtu) ∧
+  (s.dgram = true → s.isProbe = false → Gen.initialMtu < s.limit → NoCreditFrom s s.opener) ∧
+  (s.dgram = true → s.opener ≤ s.cur)
+
+theorem K_newCall (s : St) : K (newCall s) := by
+  refine ⟨?_, ?_, ?_⟩ <;> intro h <;> simp [newCall] at h
+
+theorem noCredit_lpDec (s : St) (i k : Nat) (h : NoCreditFrom s k) : NoCreditFrom (lpDec s i) k := by
+  obtain ⟨h0, h1, h2⟩ := h
+  unfold lpDec NoCreditFrom
+  split <;> refine ⟨fun hk => ?_, fun hk => ?_, ?_⟩ <;> simp_all
+
+theorem start_noCredit (s : St) (i : Nat) (h0 : lp s i = 0) (hl : laterCredit s i = false) : NoCreditFrom s i := by
+  unfold lp at h0
+  unfold laterCredit at hl
+  unfold NoCreditFrom
+  split at h0
+  · simp only [Bool.or_eq_false_iff, bne_eq_false_iff_eq] at hl
+    exact ⟨fun _ => h0, fun _ => hl.1, hl.2⟩
+  · simp only [bne_eq_false_iff_eq] at hl
+    exact ⟨fun h => by omega, fun _ => h0, hl⟩
+  · rename_i h1 h2
+    refine ⟨fun h => ?_, fun h => ?_, h0⟩
+    · exact absurd (Nat.le_zero.mp h) h1
+    · have : i = 0 ∨ i = 1 := by omega
+      rcases this with h | h
+      · exact absurd h h1
+      · exact absurd h h2
+
+theorem step_K (s : St) (o : Offer) (h : K s) (hord : s.cur ≤ o.space) : K (step s o).1 := by
+  obtain ⟨k1, k2, k3⟩ := h
+  unfold step
+  simp only []
+  split
+  · split
+    · exact ⟨k1, k2, k3⟩
+    · split
+      · rename_i hl
+        have hl0 : lp s o.space = 0 := by simpa using hl
+        refine ⟨fun hp => by simp at hp, fun _ _ hlim => ?_, fun _ => Nat.le_refl _⟩
+        simp only [Sizing.nextDatagramLimitAhead] at hlim
+        by_cases hlc : laterCredit s o.space = true
+        · simp only [hlc, if_true] at hlim
+          have := Nat.min_le_right o.segment Gen.initialMtu
+          omega
+        · have hlc' : laterCredit s o.space = false := by simpa using hlc
+          exact start_noCredit s o.space hl0 hlc'
+      · rename_i hl
+        refine ⟨fun _ => ?_, fun _ hp => by simp at hp, fun _ => Nat.le_refl _⟩
+        simp only [Sizing.nextDatagramLimitAhead]
+        have hl' : lp s o.space ≠ 0 := by simpa using hl
+        obtain ⟨n, hn⟩ := Nat.exists_eq_succ_of_ne_zero hl'
+        rw [hn]
+        exact Nat.min_le_right _ _
+  · rename_i hco
+    have hd : s.dgram = true := by
+      simp only [Bool.or_eq_true, Bool.not_eq_true', not_or, Bool.not_eq_false] at hco
+      exact hco.2
+    split
+    · exact ⟨k1, k2, k3⟩
+    · split
+      · rename_i hp
+        simp only [bne_iff_ne, ne_eq, Bool.and_eq_true, Bool.not_eq_true'] at hp
+        obtain ⟨hlp, hnp⟩ := hp
+        refine ⟨fun _ => ?_, fun _ hp2 => by simp at hp2, fun _ => ?_⟩
+        · -- the datagram becomes a probe: it must have been clamped
+          have hlim : (lpDec s o.space).limit = s.limit := by unfold lpDec; split <;> rfl
+          show (lpDec s o.space).limit ≤ Gen.initialMtu
+          rw [hlim]
+          by_cases hc : s.limit ≤ Gen.initialMtu
+          · exact hc
+          · have hnc := k2 hd hnp (by omega)
+            have := noCredit_lp s s.opener o.space hnc (Nat.le_trans (k3 hd) hord)
+            exact absurd this hlp
+        · have hop : (lpDec s o.space).opener = s.opener := by unfold lpDec; split <;> rfl
+          show (lpDec s o.space).opener ≤ o.space
+          rw [hop]; exact Nat.le_trans (k3 hd) hord
+      · refine ⟨k1, fun _ hp2 hlim => k2 hd hp2 hlim, fun _ => Nat.le_trans (k3 hd) hord⟩
+
+theorem call_K (os : List Offer) : ∀ s, K s → K (call s os).1 := by
+  induction os with
+  | nil => intro s h; exact h
+  | cons o os ih =>
+    intro s h
+    simp only [call]
+    split
+    · exact ih s h
+    · rename_i hlt
+      exact ih _ (step_K s o h (by omega))
+
+/-- "loss probes never exceed 1200 bytes", all runs: in every state the send loop reaches during a `poll_transmit` —
+    from ANY connection state `s`, after ANY iterations — a datagram charged to a loss probe (started with a credit, or
+    a credit-holding packet coalesced into it) was given a size limit of at most INITIAL_MTU = 1200 -/
+theorem loss_probe_datagram_le_1200_all_runs (s : St) (os : List Offer) :
+    (call (newCall s) os).1.isProbe = true → (call (newCall s) os).1.limit ≤ 1200 := by
+  have hm : Gen.initialMtu = 1200 := by decide
+  have := (call_K os (newCall s) (K_newCall s)).1
+  rw [hm] at this
+  exact this
+
+/-- non-vacuity (seed-1000608-like shape, with a credit): an ACK-only Initial packet opens the datagram while the Data
+    space holds a probe credit; segment size 1400: the datagram is limited to 1200 and the coalesced probe charges it -/
+example :
+    let s : St := ⟨0, 0, 1, false, false, false, false, 0, 0, 0, 0⟩
+    let r := call (newCall s) [{ space := 0, ae := false, coalesce := false, inFlight := 5026, bytes := 1400, window := 6000, segment := 1400 },
+                               { space := 2, ae := true, coalesce := true, inFlight := 5026, bytes := 1400, window := 6000, segment := 1400 }]
+    r.1.isProbe = true ∧ r.1.limit = 1200 ∧ r.1.lp2 = 0 := by decide
+
+end LossProbes
 
 end QM.Props.C13_sizing
